@@ -476,8 +476,65 @@ Fixpoint run_state (tb : sig_tables) (st : state) (ops : list op) : state :=
   | o :: t => run_state tb (fst (step tb st o)) t
   end.
 
-(* a case: the slots of each instance as __init__ leaves them (no subscribers yet), the ops *)
-Record case := { c_insts : list (list slot); c_ops : list op }.
+(* ------------------------------------------------------------------ the class hierarchy
+   HasObservables.__init__:  self.observables = dict(descriptor_generator(self)).
+   descriptor_generator (as repaired) walks type(obj).__mro__ from the most derived class, skips every
+   name already seen in an earlier class (whatever it was bound to there) and yields
+   (name, signal_types) for the BaseObservable entries.  `shadow` is the T1 flag saying that the
+   source has this shadowing logic; with shadow = false the walk is the one of the unrepaired code
+   (every observable entry of every class is yielded and dict() keeps the LAST value per name). *)
+Inductive entry := EObs (fallback : option Z) | EList | EPlain.
+Definition classdict := list (Z * entry).            (* vars(cls).items(), definition order *)
+Definition is_obs (e : entry) : bool := match e with EPlain => false | _ => true end.
+
+Fixpoint dg_class (shadow : bool) (seen : list Z) (cd : classdict) : list Z * list (Z * entry) :=
+  match cd with
+  | [] => (seen, [])
+  | (n, e) :: t =>
+      if shadow && zmem n seen then dg_class shadow seen t            (* if name in seen: continue *)
+      else
+        let '(seen', out) := dg_class shadow (n :: seen) t in         (* seen.add(name) *)
+        (seen', if is_obs e then (n, e) :: out else out)              (* isinstance(entry, BaseObservable): yield *)
+  end.
+Fixpoint dg_walk (shadow : bool) (seen : list Z) (mro : list classdict) : list (Z * entry) :=
+  match mro with
+  | [] => []
+  | cd :: t => let '(seen', out) := dg_class shadow seen cd in out ++ dg_walk shadow seen' t
+  end.
+(* dict(pairs): a key keeps its first position and takes the last value *)
+Fixpoint dict_set (k : Z) (v : entry) (d : list (Z * entry)) : list (Z * entry) :=
+  match d with
+  | [] => [(k, v)]
+  | (k', v') :: t => if k =? k' then (k, v) :: t else (k', v') :: dict_set k v t
+  end.
+Fixpoint dict_get (k : Z) (d : list (Z * entry)) : option entry :=
+  match d with
+  | [] => None
+  | (k', v) :: t => if k =? k' then Some v else dict_get k t
+  end.
+Definition observables_of (shadow : bool) (mro : list classdict) : list (Z * entry) :=
+  fold_left (fun d p => dict_set (fst p) (snd p) d) (dg_walk shadow [] mro) [].
+
+(* the slot of attribute number n: kind and fallback come from the class, the value from __init__ *)
+Definition slot_from (e : option entry) (given : slot) : slot :=
+  match e, given with
+  | Some (EObs fb), SObs v _ => SObs v fb
+  | Some (EObs fb), SList _ => SObs None fb
+  | Some EList, SList l => SList l
+  | Some EList, SObs _ _ => SList None
+  | _, s => s
+  end.
+Fixpoint build_slots (obs : list (Z * entry)) (n : Z) (vals : list slot) : list slot :=
+  match vals with
+  | [] => []
+  | s :: t => slot_from (dict_get n obs) s :: build_slots obs (n + 1) t
+  end.
+
+(* a case: the class (mro, most derived first), the values __init__ assigns per instance (attribute
+   number n = n-th slot; no subscribers yet), the ops *)
+Record case := { c_mro : list classdict; c_vals : list (list slot); c_ops : list op }.
+Definition c_insts (c : case) : list (list slot) :=
+  map (build_slots (observables_of gen_dg_shadowing (c_mro c)) 0) (c_vals c).
 Definition init_state (c : case) : state :=
   {| st_insts := map (fun sl => {| i_slots := sl; i_subs := [] |}) (c_insts c); st_dead := [] |}.
 Definition run_case (c : case) : list (list Z) := run_ops gen_sig_tables (init_state c) (c_ops c).
